@@ -13,6 +13,9 @@ KNOWN_LOOP_HANG = "hang:LoopCombinatorStep-keeps-reading-after-FAILED-terminatio
 KNOWN_CANCEL = "executor-_cancel-marks-closed:FAILED-termination-on-an-output-port:steps-still-running-when-run-raises"
 
 
+KNOWN_PIPELINE_SWALLOWS = "failure-not-propagated-through-job-pipeline:ExecuteStep-ends-SKIPPED-or-COMPLETED-although-its-ScheduleStep-FAILED"
+
+
 def oracle(spec: dict, res: dict, failing: bool):
     """yield (key, detail): ways in which one real run contradicts the property statement"""
     kind = res["outcome"]["kind"]
@@ -70,9 +73,14 @@ def oracle(spec: dict, res: dict, failing: bool):
                 yield "failure:steps-not-terminated-when-run-raises", f"steps {unterm_exit[:8]} not terminated when run() raised (not the _cancel path)"
         if unterm_late and not (cancel_path and unterm_exit):
             yield "failure:steps-never-terminated", f"steps {unterm_late[:8]} still not terminated after the executor raised and the loop settled"
-        for nid, name, st in downstream_statuses(spec, res):
-            yield "failure:step-downstream-of-the-failed-step-ends-" + str(st), (
-                f"step {name} consumes (transitively) the outputs of the failed step but ended {st}")
+        for nid, name, st, via_pipeline in downstream_statuses(spec, res):
+            if via_pipeline:
+                sched = {k: v["status"] for k, v in res.get("steps", {}).items() if "/__schedule__" in k or "/__transfer__" in k or k.endswith("-exec")}
+                yield KNOWN_PIPELINE_SWALLOWS, (f"step {name} lies downstream of the failed step but ended {st}: a job pipeline with >= 2 inputs "
+                                                f"whose ScheduleStep FAILED did not end FAILED itself; pipeline step statuses {sched}")
+            else:
+                yield "failure:step-downstream-of-the-failed-step-ends-" + str(st), (
+                    f"step {name} consumes (transitively) the outputs of the failed step but ended {st}")
         if res.get("pending"):
             if cancel_path and unterm_exit:
                 yield KNOWN_CANCEL, f"tasks still pending after run() raised: {res['pending'][:6]}"
@@ -144,7 +152,9 @@ def downstream_statuses(spec: dict, res: dict):
     if f is None or f >= len(spec["nodes"]):
         return []
     tainted = set(spec["nodes"][f]["outs"])
+    swallowed: set = set()     # ports behind a job pipeline that dropped the failure (known finding, see KNOWN_PIPELINE_SWALLOWS)
     bad = []
+    steps = res.get("steps", {})
     for n in spec["nodes"][f + 1:]:
         if not any(p in tainted for p in n["ins"]):
             continue
@@ -152,12 +162,20 @@ def downstream_statuses(spec: dict, res: dict):
             continue
         tainted.update(n["outs"])
         name = f"/n{n['id']}-{n['kind']}"
-        st = res.get("steps", {}).get(name, {}).get("status")
+        st = steps.get(name, {}).get("status")
+        if any(p in swallowed for p in n["ins"]):
+            swallowed.update(n["outs"])
+        if (n["kind"] == "exec" and len(n["ins"]) >= 2 and steps.get(name + "/__schedule__", {}).get("status") in ("FAILED", "CANCELLED")
+                and st not in ("FAILED", "CANCELLED")):
+            # the pipeline's ScheduleStep failed (FAILED termination on one input) but its ExecuteStep did not
+            swallowed.update(n["outs"])
+            if st == "SKIPPED":
+                bad.append((n["id"], name, st, True))
         # FAILED / CANCELLED as in the model; SKIPPED happens in the real engine when close() (not atomic: one terminate()
         # task per step) has put a CANCELLED termination token that a still running consumer with empty outputs reads
         # before it is cancelled itself: `_get_status(CANCELLED)` is SKIPPED on empty outputs. Never COMPLETED.
         if st not in ("FAILED", "CANCELLED", "SKIPPED"):
-            bad.append((n["id"], name, st))
+            bad.append((n["id"], name, st, any(p in swallowed for p in n["ins"] + n["outs"])))
     return bad
 
 
@@ -183,7 +201,9 @@ class C04(Property):
             "pipelines) run on the real StreamFlowExecutor under the default asyncio order and 2 (quick) / 6 (thorough) PRNG task "
             "interleavings each; half of the workflows additionally with one injected failure (a transformer raising on one tag, or a "
             "scatter fed a non-list so that the exception escapes run() into the executor, a failing job, a loop body failing in a later "
-            "iteration; witness workflows incl. two resource-contended job pipelines run first). Oracle per run: executor "
+            "iteration; witness workflows run first: two resource-contended job pipelines, joins of unequal branches in both port orders, an "
+            "escaping exception with and WITHOUT workflow output ports; 15 % of the failing workflows have no output ports). A hang is "
+            "run() unfinished and no change of the workflow state for a load-scaled window (or a task awaiting itself), never elapsed time alone. Oracle per run: executor "
             "return/raise, hang watchdog, every step terminated at the moment run() exits, one termination token per port, no pending "
             "task. Compared with the Lean model: executor outcome and (failure-free) the final status of every step. Non-trivial = "
             "workflow with >= 3 nodes.")
